@@ -315,6 +315,33 @@ Section Model.
     end.
 
   Definition step (s : st) : list (option ev * st) := sstep s ++ cstep s ++ xstep s.
+
+  (* DEFECT C18_1 *)
+  (** The code as it is now also lets Close be called on a bare client while a
+      second or later Subscribe call is still in progress.  [cstep] leaves that
+      call out (its side condition on [CIdle | CFin]); this extra transition is
+      the only difference between [step] and the code.  What follows it are
+      ordinary steps: [BaseClient.Close] finds the transport of the PREVIOUS
+      call installed, sets [closed], closes that transport and returns nil;
+      the Subscribe in progress then installs its own transport with
+      [c.closed = false] and streams on (fixes/C18_1_...diff).  Once the patch is
+      in: switch [defect_C18_1] to [false]; Subscribe then clears [closed] when it
+      is called instead of at the install step, and the install step, finding
+      [closed] set, closes the new transport and returns nil -- to be modelled in
+      [sstep] ([SInstall]) together with dropping the side condition in [cstep]. *)
+  Definition defect_C18_1 : bool := true.
+
+  Definition defect_steps (s : st) : list (option ev * st) :=
+    if negb defect_C18_1 || reconnect then []
+    else match c_pc s with
+         | CIdle | CFin =>
+             if Nat.eqb (s_att s) 0 || match s_pc s with SFin => true | _ => false end
+             then [] else [(Some ECloseCall, set_cpc CBase s)]
+         | _ => []
+         end.
+
+  (** the code as it is now *)
+  Definition step_now (s : st) : list (option ev * st) := step s ++ defect_steps s.
 End Model.
 
 (** A finite script: attempts beyond the list fail in the constructor. *)
